@@ -1848,8 +1848,10 @@ def replay_scopes(a):
     exe = a.cli()
     if not exe:
         return {"reproduced": False, "note": "native build failed"}
-    data = '{"Size": 80,\n "L": [ {"x": 1, "y": 1}, {"x": 2, "y": 2} ],\n "R": {"a": {"Type": "A::B::C", "v": 1}, "b": {"Type": "A::B::C", "v": 2}}}\n'
-    prefix = "let limit = 10\nlet big = Size\n"
+    data = ('{"Size": 80, "Name": "Ab",\n "L": [ {"x": 1, "y": 1}, {"x": 2, "y": 2} ],\n'
+            ' "R": {"a": {"Type": "A::B::C", "v": 1}, "b": {"Type": "A::B::C", "v": 2}}}\n')
+    # several assignments of every kind in one scope: each must be registered (under its own name, with its own value)
+    prefix = "let limit = 10\nlet big = Size\nlet two = 2\nlet first = L[0].x\nlet up = to_upper(Name)\nlet lo = to_lower(Name)\n"
     cases = [
         # guard of an inner when block sees the OUTER variable, the guarded block's own let does not leak into it
         ("when %limit == 10 {\n    let limit = 99\n    Size <= 50\n  }", "FAIL"),
@@ -1871,6 +1873,12 @@ def replay_scopes(a):
         ("L[*] {\n    let k = x\n    when %k == 1 {\n      let k = 5\n      y == 1\n    }\n  }", "PASS"),
         ("L[*] {\n    let k = x\n    when %k == 2 {\n      let k = 1\n      y == 1\n    }\n  }", "FAIL"),
         ("L[*] {\n    let k = x\n    when %k == 5 {\n      let k = 5\n      y == 99\n    }\n  }", "SKIP"),
+        # every assignment of a scope is there, whatever its position and kind
+        ("%two == 2", "PASS"), ("%first == 1", "PASS"), ("%up == \"AB\"", "PASS"), ("%lo == \"ab\"", "PASS"), ("%limit == 10", "PASS"), ("%big == 80", "PASS"),
+        ("%two == 10", "FAIL"), ("%first == 80", "FAIL"), ("%lo == \"AB\"", "FAIL"),
+        ("L[*] {\n    let p = x\n    let q = y\n    let r = 5\n    let s = 6\n    let u = to_upper(\"a\")\n    let w = to_upper(\"b\")\n"
+         "    %p == %q\n    %r == 5\n    %s == 6\n    %u == \"A\"\n    %w == \"B\"\n  }", "PASS"),
+        ("L[*] {\n    let p = x\n    let q = y\n    %q == 1\n  }", "FAIL"),
         # an unused variable never influences a verdict
         ("when Size == 80 {\n    let unused = 1\n    Size == 80\n  }", "PASS"),
     ]
@@ -1889,7 +1897,8 @@ def replay_scopes(a):
         rc, rep, err = a.run_structured(exe, rules, [d2])
         if not (rep and isinstance(rep, list) and rep):
             crashed = rc == 101 or "panicked" in (err or "")
-            more.append({"rules_file": rules, "expected": exp, "observed": "PANIC (exit %s)" % rc if crashed else None, "exit": rc, "stderr": (err or "")[-200:]})
+            more.append({"rules_file": rules, "expected": exp, "observed": "PANIC (exit %s)" % rc if crashed else "ERROR (exit %s)" % rc, "exit": rc,
+                         "stderr": (err or "")[-200:]})
             continue
         r = rep[0]
         got = "PASS" if "t" in r.get("compliant", []) else ("SKIP" if "t" in r.get("not_applicable", []) else "FAIL")
@@ -3179,6 +3188,105 @@ def replay_param_call_records(a):
         shutil.rmtree(d, ignore_errors=True)
 
 
+def variable_tables(a):
+    """C15: where a `let` ends up. extract_variables files every assignment of a block / rules file under ITS OWN name in the table of
+    ITS kind (literal / query / function call) with ITS OWN value; block_scope / root_scope put exactly these tables into the scope,
+    together with the root given and an EMPTY cache of resolved variables"""
+    LE = struct_fields(a.src, "rules/exprs.rs", "LetExpr")
+    LV = enum_variants(a.src, "rules/exprs.rs", "LetValue")
+    EC = r"(?:(?:rules::)?eval_context::)?"
+    ex = a.exec(EC + "extract_variables", {"next": mirexec.m_iter_next, "with_capacity": lambda ex, av: ex.opq(), "new": mirexec.m_identity,
+                                           "as_str": mirexec.m_identity},
+                log=("insert", "remove", "clear", "entry", "with_capacity"), unroll=2, max_paths=4000)
+    a.fns.append("rules::eval_context::extract_variables")
+    exprs = ex.arg_env["_1"]
+    bad, nlet = [], 0
+    for p in ex.paths:
+        r = p.ret
+        caps = calls(p, "with_capacity")
+        if p.outcome != "return" or not r or r[0] != "tuple" or len(r[1]) != 3 or len(caps) != 3 or [c[3] for c in caps] != list(r[1]):
+            bad.append(pc_term(p.pc))
+            continue
+        tables = dict(zip(("Value", "AccessClause", "FunctionCall"), r[1]))
+        its = iterations(ex, p)
+        idx = [i for _k, _e, _t, i in its] + [len(p.events)]
+        terms, ok = [], not (calls(p, "remove") or calls(p, "clear") or calls(p, "entry"))
+        # the loop runs over the assignment list given - not over a slice, a skipped / filtered / reversed view of it
+        ok = ok and all(e[2] and e[2][0][0] == "opaque" and ex.iter_src.get(e[2][0][1], e[2][0]) == exprs for e in calls(p, "next"))
+        seen_ins = 0
+        for n, (k, el, tag, i0) in enumerate(its):
+            seg = [e for i, e in enumerate(p.events) if i0 < i < idx[n + 1] and e[0] == "call" and e[1] == "insert"]
+            seen_ins += len(seg)
+            if f"(= {tag} 1)" not in p.pc:
+                ok = ok and not seg
+                continue
+            nlet += 1
+            if len(seg) != 1 or el is None or el[0] != "opaque":
+                ok = False
+                continue
+            ins = seg[0]
+            name = ex.proj.get((el[1], f".{LE.index('var')}"))
+            val = ex.proj.get((el[1], f".{LE.index('value')}"))
+            d = disc(ex, val) if val is not None else None
+            alts = []
+            for var in LV:
+                pay = ex.proj.get((val[1], f"as {var}.0")) if val is not None and val[0] == "opaque" else None
+                hit = (name is not None and ins[2][0] == tables.get(var) and ins[2][1] == name and pay is not None and ins[2][2] == pay)
+                alts.append(f"(and (= {d} {LV.index(var)}) {'true' if hit else 'false'})")
+            terms.append("(or " + " ".join(alts) + ")")
+        ok = ok and seen_ins == len(calls(p, "insert"))
+        n_it = "(+ 0 0 " + " ".join(f"(ite (= {t} 1) 1 0)" for _k, _e, t, _i in its) + ")"
+        good = "(and " + " ".join(terms + ["true" if ok else "false", f"(= {n_it} {len(calls(p, 'insert'))})"]) + ")"
+        bad.append(f"(and {pc_term(p.pc)} (not {good}))")
+    c = a.discharge("extract_variables/own-name-own-table", ex, bad,
+                    f"extract_variables over <= 2 assignments ({nlet} assignments over all paths): every assignment is inserted exactly once, under its "
+                    "own variable name, into the table of its kind (literal / query / function call) with its own value; nothing is removed; the three "
+                    "tables returned are the ones filled")
+    if c:
+        c["replay"] = replay_scopes(a)
+        c["reproduced"] = c["replay"].get("reproduced", False)
+        a.candidates.append(c)
+    # --- block_scope / root_scope: the tables and the root land in the scope; the cache starts empty
+    SC = struct_fields(a.src, "rules/eval_context.rs", "Scope")
+    BLK = struct_fields(a.src, "rules/exprs.rs", "Block")
+    RF = struct_fields(a.src, "rules/exprs.rs", "RulesFile")
+    for fn, label, src_arg, src_key, root_arg in (("block_scope", "block scope", "_1", f".{BLK.index('assignments')}", "_2"),
+                                                   ("root_scope", "file scope", "_1", f".{RF.index('assignments')}", "_2")):
+        def m_ext(ex, argv):
+            return ("tuple", [ex.opq(), ex.opq(), ex.opq()])
+        ex = a.exec(EC + fn, {"extract_variables": m_ext, "new": lambda ex, av: ("struct", "EmptyMap", {}), "next": mirexec.m_iter_next,
+                              "root_scope_with": lambda ex, av: ("struct", "RootScopeWith", {str(i): v for i, v in enumerate(av)}),
+                              "with_capacity": lambda ex, av: ex.opq(), "entry": lambda ex, av: ex.opq(), "or_insert": lambda ex, av: ex.opq()},
+                    log=("insert", "push"), unroll=1, max_paths=2000, deepen=False)
+        a.fns.append("rules::eval_context::" + fn)
+        bad = []
+        for p in ex.paths:
+            evs = calls(p, "extract_variables")
+            r = p.ret
+            if p.outcome != "return" or len(evs) != 1 or r is None:
+                bad.append(pc_term(p.pc))
+                continue
+            lit, qs, fs = evs[0][3][1]
+            src_ok = origin(ex, evs[0][2][0]) == (ex.arg_env[src_arg], [src_key])
+            if fn == "block_scope":
+                sc = r[2].get("scope") if r[0] == "struct" else None
+                ok = (src_ok and sc is not None and sc[0] == "struct" and sc[2].get("literals") == lit and sc[2].get("variable_queries") == qs
+                      and sc[2].get("function_expressions") == fs and sc[2].get("root") == ex.arg_env[root_arg]
+                      and sc[2].get("resolved_variables") == ("struct", "EmptyMap", {}) and r[2].get("parent") == ex.arg_env["_3"])
+            else:
+                args = list(r[2].values()) if r[0] == "struct" and r[1] == "RootScopeWith" else []
+                ok = src_ok and len(args) == 6 and args[0] == lit and args[1] == qs and args[4] == fs and args[5] == ex.arg_env[root_arg]
+            bad.append(f"(and {pc_term(p.pc)} (not {'true' if ok else 'false'}))")
+        c = a.discharge(f"{fn}/tables-into-scope", ex, bad,
+                        f"{label}: the variable tables are extracted from THIS block's / file's own assignments and stored as the scope's literals / "
+                        "queries / function calls, with the root given" + ("; the cache of resolved variables starts empty; the parent is the scope given"
+                                                                         if fn == "block_scope" else " (handed to root_scope_with in that order)"))
+        if c:
+            c["replay"] = replay_scopes(a)
+            c["reproduced"] = c["replay"].get("reproduced", False)
+            a.candidates.append(c)
+
+
 def scope_delegations(a):
     """the one-line scope methods: a scope that has no state of its own for a question hands it, unchanged, to the scope / recorder that
     has - and touches nothing else (in particular no memo table is written from a record passing through)"""
@@ -3321,7 +3429,7 @@ SITES = {
     "C16": [test_generic_report, test_get_by_result, test_get_by_rules, test_structured_evaluate, test_result_exit_code],
     "C02": [param_ctx_end_record, scope_delegations],
     "C09": [report_partition, report_rule_listing, report_combine_union, unary_empty_on_expr, param_ctx_end_record],
-    "C15": [scope_resolution, scope_discipline, scope_delegations, param_rule_call, param_ctx_resolve],
+    "C15": [scope_resolution, scope_discipline, scope_delegations, variable_tables, param_rule_call, param_ctx_resolve],
     "C04": [rule_status_semantics, root_scope_rule_table, scope_delegations],
     "C01": [rule_status_semantics, root_scope_rule_table, scope_discipline],
     "C17": [merge_map, merge_unwrap, param_files_fold_step, data_input_params_wiring, structured_merge_closure],
